@@ -113,7 +113,9 @@ impl FileName {
 
         let mod_name = if is_mod { components.next() } else { None };
 
-        if has_src {
+        // only modules have the `<module>/src/...` layout; for any other file this would drop
+        // the first directory and make e.g. `a/src/x.capy` and `src/x.capy` indistinguishable
+        if is_mod && has_src {
             components.next();
         }
 
